@@ -398,19 +398,30 @@ func faults(x *mon.Ctx) {
 		if g.mode == ref.NIST && gi%4 >= 2 {
 			st = 16
 		}
-		// kind -1: the stream simply ends in the middle of call k (no Tail)
-		for kind := -1; kind < len(faultKinds); kind++ {
-			for k := 0; k <= faultCalls; k++ {
-				kn := "stream-ends"
-				if kind >= 0 {
-					kn = faultKinds[kind].String()
+		sts := []int{st}
+		if x.Thorough() {
+			// every strength class of the wrapper that instantiates in this configuration
+			if g.mode == ref.NIST {
+				sts = []int{14, 16, 24, 32, 48}
+			} else {
+				sts = []int{st, 64, 100}
+			}
+		}
+		for _, st := range sts {
+			// kind -1: the stream simply ends in the middle of call k (no Tail)
+			for kind := -1; kind < len(faultKinds); kind++ {
+				for k := 0; k <= faultCalls; k++ {
+					kn := "stream-ends"
+					if kind >= 0 {
+						kn = faultKinds[kind].String()
+					}
+					c := x.Begin("fault cfg=%s strength=%d kind=%s at source call %d (0=entropy 1=nonce 2..=reseed; %d=beyond the script: control)", g.name(), st, kn, k, faultCalls)
+					if c == nil {
+						continue
+					}
+					oneFault(c, g, gi+k, st, kind, kn, k)
+					c.End()
 				}
-				c := x.Begin("fault cfg=%s strength=%d kind=%s at source call %d (0=entropy 1=nonce 2..=reseed; %d=beyond the script: control)", g.name(), st, kn, k, faultCalls)
-				if c == nil {
-					continue
-				}
-				oneFault(c, g, gi+k, st, kind, kn, k)
-				c.End()
 			}
 		}
 	}
